@@ -296,6 +296,55 @@ fn run_after_key_sync(cx: &mut CaseCx, _case: &Value) {
   cx.outcome("after key sync");
 }
 
+
+/// Completeness on servers that have PUNCTURED: after every ordered sequence of punctures from cousin families,
+/// every live tag's verifiable evaluation still verifies against the public key published at creation.
+fn run_completeness_after_punctures(cx: &mut CaseCx, case: &Value) {
+  let fams: Vec<Vec<u8>> = vec![vec![0, 64, 128, 192], vec![1, 65, 129, 193], vec![0, 1, 2, 3], vec![252, 253, 254, 255], vec![0, 128, 1, 129]];
+  let fam = fams[case["family"].as_u64().unwrap() as usize % fams.len()].clone();
+  cx.entropy(270);
+  let server = pp::Server::new((0..=255u8).collect()).expect("server");
+  let pk = server.get_public_key();
+  let (blinded, _) = pp::Client::blind(b"after punctures");
+  let mut probes: Vec<u8> = fam.iter().flat_map(|&x| [x, x ^ 0x80, x ^ 0x40, x ^ 0x01]).collect();
+  probes.sort();
+  probes.dedup();
+  for_each_seq(fam.len(), 3, |seq| {
+    let mut d = seq.to_vec();
+    d.sort();
+    d.dedup();
+    if seq.is_empty() || d.len() != seq.len() || !cx.viols.is_empty() {
+      return;
+    }
+    let order: Vec<u8> = seq.iter().map(|&i| fam[i]).collect();
+    let mut s = server.clone();
+    for &t in &order {
+      let _ = s.puncture(t);
+    }
+    cx.nontrivial(fnv(&order));
+    for &t in &probes {
+      if order.contains(&t) {
+        continue;
+      }
+      cx.eval();
+      match guard(|| s.eval(&blinded, t, true)) {
+        Ok(Ok(ev)) => {
+          if guard(|| pp::Client::verify(&pk, &blinded, &ev, t)) != Ok(true) {
+            cx.viol("C13/complete/honest-rejected/after-punctures", format!("after puncturing {:?} the honest verifiable evaluation for the live tag {} is rejected under the public key published at creation", order, t), json!({"punctured_in_order": order, "tag": t}));
+            return;
+          }
+          cx.count("honest_verified", 1);
+        }
+        other => {
+          cx.viol("C13/eval-failed", format!("after puncturing {:?} the verifiable evaluation for the live tag {} failed: {:?}", order, t, other.map(|r| r.map(|_| ()).map_err(|e| e.to_string()))), json!({"punctured_in_order": order, "tag": t}));
+          return;
+        }
+      }
+    }
+  });
+  cx.outcome("complete after punctures");
+}
+
 fn run_soundness(cx: &mut CaseCx, case: &Value) {
   let w = world(cx, 0);
   let w2 = world(cx, 1);
@@ -401,7 +450,25 @@ fn run_soundness(cx: &mut CaseCx, case: &Value) {
       }
     }
   }
-  // the tag argument
+  // the tag argument: EVERY other value 0..=255 (registered, unregistered, below / above / between published tags)
+  for t in 0..=255u8 {
+    if t == md {
+      continue;
+    }
+    cx.eval();
+    let honest_ev = ev_of(&h.output, &h.proof).expect("ev");
+    match guard(|| pp::Client::verify(&w.pk, &pt(&h.blinded), &honest_ev, t)) {
+      Ok(false) => cx.count("tampering_rejected", 1),
+      Ok(true) => {
+        cx.viol("C13/sound/tag-substitution-accepted", format!("an evaluation computed for tag {} verifies when the client asks for tag {} ({})", md, t, if TAGS.contains(&t) { "another registered tag" } else { "a tag the server never published" }), json!({"computed_for": md, "verified_as": t}));
+        break;
+      }
+      Err(p) => {
+        cx.viol("C13/verify-panicked", format!("Client::verify panicked for tag {}: {}", t, p), json!({"tag": t}));
+        break;
+      }
+    }
+  }
   for (how, t) in [("another registered tag", other_md), ("an unregistered tag", 9u8), ("tag+1", md.wrapping_add(1)), ("tag^0x80", md ^ 0x80)] {
     if t == md {
       continue;
@@ -719,6 +786,13 @@ pub fn spec() -> PropSpec {
         gen: |_| vec![json!({})],
         run: run_after_key_sync,
         min_counts: &[("synced_evaluations_verified", 20), ("synced_refusals", 20)],
+      },
+      Check {
+        name: "completeness-after-punctures",
+        rule: "server with all 256 tags; 5 cousin families ({0,64,128,192}, {1,65,129,193}, {0..3}, {252..255}, {0,128,1,129}); after EVERY ordered sequence of 1..3 distinct punctures from the family, the verifiable evaluation of every live tag of the family and of its x^0x80, x^0x40, x^0x01 neighbours verifies against the public key published at creation",
+        gen: |_| (0..5u64).map(|f| json!({"family": f})).collect(),
+        run: run_completeness_after_punctures,
+        min_counts: &[("honest_verified", 1200)],
       },
       Check { name: "nonces", rule: "commitment s*G + c*PK recomputed for every proof issued (6 inputs x 4 tags x the identical request repeated 4 times; then the same requests answered in lockstep by the original server, a clone, a clone of the clone and a server restored from the exported state): pairwise distinct (about 860 proofs on one thread, more than any plausible per-thread pool)", gen: |_| vec![json!({})], run: run_nonces, min_counts: &[("proofs_issued", 90)] },
     ],
